@@ -87,8 +87,9 @@ def wrap(lines, wrappers):
     return lines
 
 
-def build(doc, d: Path):
-    """doc: list of (kind, [wrappers]) -> text; writes sentinel files into d"""
+def build(doc, d: Path, tight: bool = False):
+    """doc: list of (kind, [wrappers]) -> text; writes sentinel files into d.
+    tight: the constructs follow each other directly (adjacent raw siblings), one marker at the end"""
     out = []
     for n, (kind, ws) in enumerate(doc, 1):
         (d / f"inc{n}.md").write_text(f"FILESENTINEL{n}x\n")
@@ -96,7 +97,12 @@ def build(doc, d: Path):
         (d / f"inc{n}.html").write_text(f"<p>FILESENTINEL{n}x</p>\n")
         (d / f"data{n}.csv").write_text(f"a,FILESENTINEL{n}x\n")
         ws = [w for w in ws if w != "none"]
-        out += wrap(construct_lines(kind, n, d) + ["", f"MARKER{n}x"], ws) + [""]
+        if tight:
+            out += construct_lines(kind, n, d) + [""]
+        else:
+            out += wrap(construct_lines(kind, n, d) + ["", f"MARKER{n}x"], ws) + [""]
+    if tight:
+        out += [f"MARKER{len(doc)}x", ""]
     return "\n".join(out) + "\n"
 
 
@@ -112,7 +118,7 @@ def observe(case):
     d = Path(case["wd"]) / f"w{os.getpid()}_{case['id']}"
     d.mkdir(parents=True, exist_ok=True)
     doc = case["doc"]
-    text = build(doc, d)
+    text = build(doc, d, case.get("tight", False))
     src = d / "doc.md"
     src.write_text(text)
     ov = {"raw_enabled": case["rawOn"], "file_insertion_enabled": case["fileOn"],
@@ -169,11 +175,24 @@ def _anc(n):
         p = p.parent
 
 
-def judge(ctx, leg, doc, rawOn, fileOn, exp, o):
+def judge(ctx, leg, doc, rawOn, fileOn, exp, o, tight=False):
     case = {"leg": leg, "markdown": o.get("text"), "raw_enabled": rawOn, "file_insertion_enabled": fileOn,
             "constructs": [k for k, _ in doc]}
     if "error" in o:
         ctx.violation(f"rendering raised {o['error']}", case)
+        return
+    if tight:
+        # adjacent constructs: raw nodes cannot be attributed, the clauses are checked on the whole document
+        nraw = sum(g["raw"] for g in o["per"])
+        if (nraw > 0) != any(e["raw"] > 0 for e in exp):
+            ctx.violation(f"adjacent constructs {[k for k, _ in doc]}, raw_enabled={rawOn}: {nraw} raw node(s) in the doctree, "
+                          f"expected {'some' if any(e['raw'] for e in exp) else 'none'}", case)
+        elif not any(e["raw"] for e in exp) and any(g["html"] for g in o["per"]):
+            ctx.violation(f"adjacent constructs {[k for k, _ in doc]}, raw_enabled={rawOn}: a raw payload reaches the html5 output", case)
+        elif sum(g["warn"] for g in o["per"]) < sum(1 for e in exp if e["warn"] > 0):
+            ctx.violation(f"adjacent constructs {[k for k, _ in doc]}: fewer warnings than refused constructs", case)
+        elif o["per"][-1]["marker"] != 1:
+            ctx.violation("the paragraph after the constructs is missing", case)
         return
     for n, ((kind, ws), e, g) in enumerate(zip(doc, exp, o["per"]), 1):
         where = f"construct {n} ({kind} in {'/'.join(ws) or 'top level'}), raw_enabled={rawOn}, file_insertion_enabled={fileOn}"
@@ -240,12 +259,14 @@ def run(ctx):
         seen.add(key)
         cases.append({"id": len(cases), "doc": [(k, [w]) for k, w in rec["doc"]], "rawOn": rec["rawOn"], "fileOn": rec["fileOn"],
                       "exp": _exp_from(rec), "wd": str(ctx.wd / "docs")})
+        if len(rec["doc"]) >= 2 and all(k in RAWK and w == "none" for k, w in rec["doc"]):
+            cases.append({**cases[-1], "id": len(cases), "tight": True})
     outs = pmap(observe, cases, chunksize=16)
     for c, o in zip(cases, outs):
         refused = any(e["warn"] > 0 for e in c["exp"])
-        ctx.count((repr(c["doc"]), c["rawOn"], c["fileOn"]), nontrivial=refused)
+        ctx.count((repr(c["doc"]), c["rawOn"], c["fileOn"], c.get("tight", False)), nontrivial=refused)
         ctx.traces_validated += 1
-        judge(ctx, "R", c["doc"], c["rawOn"], c["fileOn"], c["exp"], o)
+        judge(ctx, "R", c["doc"], c["rawOn"], c["fileOn"], c["exp"], o, c.get("tight", False))
     mid = cases[len(cases) // 2]
     ctx.sample({"constructs": mid["doc"], "raw_enabled": mid["rawOn"], "file_insertion_enabled": mid["fileOn"], "expected_per_construct": mid["exp"]})
     ctx.leg("R", behaviours=len(cases))
